@@ -112,43 +112,90 @@ func verifyRaw(cert *x509.Certificate, method string, msg, sig []byte) bool {
 	return false
 }
 
-// publishedCert extracts the use="signing" certificate from the SP's metadata XML as published.
-func publishedCert(sp *saml.ServiceProvider) (cert *x509.Certificate, signingKD bool, authnSigned *bool) {
+type pubKD struct {
+	Use   string
+	Certs []string
+}
+
+// publishedCert reads the SP's metadata XML as published: every KeyDescriptor with its
+// X509Certificate texts, AuthnRequestsSigned, and the FIRST certificate of the use="signing"
+// descriptor parsed with crypto/x509 (nil when absent or unparsable).
+func publishedCert(sp *saml.ServiceProvider) (cert *x509.Certificate, kds []pubKD, authnSigned *bool) {
 	var md *saml.EntityDescriptor
 	withEnv(&recReader{}, func() { md = sp.Metadata() })
 	b, err := xml.Marshal(md)
 	if err != nil {
-		return nil, false, nil
+		return nil, nil, nil
 	}
 	doc := etree.NewDocument()
 	if doc.ReadFromBytes(b) != nil || doc.Root() == nil {
-		return nil, false, nil
+		return nil, nil, nil
 	}
 	spsso := child(doc.Root(), "SPSSODescriptor")
 	if spsso == nil {
-		return nil, false, nil
+		return nil, nil, nil
 	}
 	if v := attrOpt(spsso, "AuthnRequestsSigned"); v != nil {
 		x := *v == "true"
 		authnSigned = &x
 	}
+	seenSigning := false
 	for _, kd := range spsso.ChildElements() {
-		if kd.Tag != "KeyDescriptor" || kd.SelectAttrValue("use", "") != "signing" {
+		if kd.Tag != "KeyDescriptor" {
 			continue
 		}
-		signingKD = true
-		c := child(child(child(kd, "KeyInfo"), "X509Data"), "X509Certificate")
-		if c == nil {
-			continue
+		k := pubKD{Use: kd.SelectAttrValue("use", "")}
+		if xd := child(child(kd, "KeyInfo"), "X509Data"); xd != nil {
+			for _, ce := range xd.ChildElements() {
+				if ce.Tag == "X509Certificate" {
+					k.Certs = append(k.Certs, ce.Text())
+				}
+			}
 		}
-		der, err := base64.StdEncoding.DecodeString(strings.Join(strings.Fields(c.Text()), ""))
-		if err != nil {
-			continue
-		}
-		if pc, err := x509.ParseCertificate(der); err == nil {
-			cert = pc
+		kds = append(kds, k)
+		if k.Use == "signing" && !seenSigning {
+			seenSigning = true
+			if len(k.Certs) > 0 {
+				if der, err := base64.StdEncoding.DecodeString(strings.Join(strings.Fields(k.Certs[0]), "")); err == nil {
+					if pc, err := x509.ParseCertificate(der); err == nil {
+						cert = pc
+					}
+				}
+			}
 		}
 	}
+	return
+}
+
+func kdsTerm(kds []pubKD) string {
+	items := make([]string, len(kds))
+	for i, k := range kds {
+		items[i] = "(" + emit.Str(k.Use) + ", " + emit.StrList(k.Certs) + ")"
+	}
+	return emit.List(items)
+}
+
+func certB64s(cs []*x509.Certificate) []string {
+	out := make([]string, len(cs))
+	for i, c := range cs {
+		out[i] = base64.StdEncoding.EncodeToString(c.Raw)
+	}
+	return out
+}
+
+// mdTerm renders the metadata case for one SP configuration.
+func mdTerm(o spOpts, hasCert bool, cert *x509.Certificate, kds []pubKD, authnSigned *bool) (term string, obs map[string]any) {
+	as := authnSigned != nil && *authnSigned
+	firstOK := hasCert && cert != nil && cert.Equal(o.cert)
+	certT := "None"
+	isRSA := false
+	if hasCert {
+		certT = "(Some " + emit.Str(base64.StdEncoding.EncodeToString(o.cert.Raw)) + ")"
+		_, isRSA = o.cert.PublicKey.(*rsa.PublicKey)
+	}
+	obs = map[string]any{"key_descriptors": kds, "AuthnRequestsSigned": authnSigned, "first_signing_certificate_is_sp_certificate": firstOK}
+	term = fmt.Sprintf("{| md_cert := %s; md_inters := %s; md_rsa := %s; md_method := %s; md_kds := %s; md_authn_signed := %s; md_first_is_sp_cert := %s |}",
+		certT, emit.StrList(certB64s(o.inters)), emit.Bool(isRSA), emit.Str(o.method), kdsTerm(kds), emit.Bool(as), emit.Bool(firstOK))
 	return
 }
 
@@ -460,20 +507,25 @@ func runC13(c *Ctx) {
 				if v > 0 && (v+combo)%5 == 0 {
 					o.nameIDFormat = saml.UnspecifiedNameIDFormat
 				}
+				// the certificate chain: 0, 1 or 2 intermediates published after the SP's own certificate
+				nInter := (v + combo) % 3
+				if fits {
+					nInter = v % 3
+				}
+				o.inters = []*x509.Certificate{fix.Cert("rsa_b"), fix.Cert("rsa_c")}[:nInter]
 				sp := buildSP(o)
-				cert, signingKD, authnSigned := publishedCert(sp)
+				cert, kds, authnSigned := publishedCert(sp)
 
-				// metadata advertises the signing certificate and AuthnRequestsSigned
-				if v == 0 {
-					as := authnSigned != nil && *authnSigned
-					certOK := cert != nil && cert.Equal(o.cert)
-					c.Count(fmt.Sprintf("metadata/signing_kd/%v", signingKD))
+				// metadata advertises the signing certificate (first of the chain) and AuthnRequestsSigned
+				{
+					term, mobs := mdTerm(o, true, cert, kds, authnSigned)
+					c.Count(fmt.Sprintf("metadata/intermediates/%d", nInter))
+					c.Count(fmt.Sprintf("metadata/key_descriptors/%d", len(kds)))
 					c.Add(gmd, &Case{
-						Key:   map[string]string{"op": "metadata_advertises", "method": m, "key": kf.name},
-						Input: map[string]any{"signature_method": m, "key": kf.name},
-						Obs:   map[string]any{"signing_key_descriptor": signingKD, "AuthnRequestsSigned": authnSigned, "certificate_is_sp_certificate": certOK},
-						Term: fmt.Sprintf("{| md_has_cert := true; md_method := %s; md_signing_kd := %s; md_authn_signed := %s; md_cert_matches := %s |}",
-							emit.Str(m), emit.Bool(signingKD), emit.Bool(as), emit.Bool(certOK)),
+						Key:   map[string]string{"op": "metadata_advertises", "method": m, "key": kf.name, "intermediates": fmt.Sprint(nInter)},
+						Input: map[string]any{"signature_method": m, "key": kf.name, "intermediates": nInter},
+						Obs:   mobs,
+						Term:  term,
 					})
 				}
 
@@ -605,6 +657,7 @@ func runC13(c *Ctx) {
 						c.Count(fmt.Sprintf("sign/outcome/%d/fits/%v", clsN, fits))
 						c.Count("sign/key/" + kf.name)
 						c.Count("sign/endpoint/" + ep.class)
+						c.Count(fmt.Sprintf("sign/intermediates/%d", nInter))
 						if xmlSig {
 							c.Count("sign/xml_signature_verified")
 						}
@@ -626,7 +679,7 @@ func runC13(c *Ctx) {
 						c.Add(gs, &Case{
 							Key: map[string]string{"op": "sign", "kind": fmt.Sprint(kind), "binding": fmt.Sprint(bnd), "method": m, "key": kf.name, "endpoint": ep.class},
 							Input: map[string]any{"kind": []string{"AuthnRequest", "LogoutRequest", "LogoutResponse", "ArtifactResolve"}[kind], "binding": []string{"redirect", "post"}[bnd],
-								"signature_method": m, "key": kf.name, "endpoint_suffix": ep.s, "relay_state": relay, "name_id": nameID, "force_authn": o.forceAuthn, "authn_ctx": o.authnCtx},
+								"signature_method": m, "key": kf.name, "endpoint_suffix": ep.s, "relay_state": relay, "name_id": nameID, "force_authn": o.forceAuthn, "authn_ctx": o.authnCtx, "intermediates": nInter},
 							Obs: obs,
 							Term: fmt.Sprintf("{| sg_kind := %d; sg_binding := %d; sg_method := %s; sg_kt := %d; sg_cls := %d; sg_xmlsig := %s; sg_redirsig := %s |}",
 								kind, bnd, emit.Str(m), ktOf(kf.key), clsN, emit.Bool(xmlSig), emit.Bool(redirSig)),
@@ -659,16 +712,16 @@ func runC13(c *Ctx) {
 	{
 		o := defaultOpts()
 		o.method = dsig.RSASHA256SignatureMethod
+		o.inters = []*x509.Certificate{fix.Cert("rsa_b")}
 		sp := buildSP(o)
 		sp.Certificate = nil
-		_, signingKD, authnSigned := publishedCert(sp)
-		as := authnSigned != nil && *authnSigned
+		cert, kds, authnSigned := publishedCert(sp)
+		term, mobs := mdTerm(o, false, cert, kds, authnSigned)
 		c.Add(gmd, &Case{
 			Key:   map[string]string{"op": "metadata_advertises", "method": o.method, "key": "none"},
 			Input: map[string]any{"signature_method": o.method, "certificate": nil},
-			Obs:   map[string]any{"signing_key_descriptor": signingKD, "AuthnRequestsSigned": authnSigned},
-			Term: fmt.Sprintf("{| md_has_cert := false; md_method := %s; md_signing_kd := %s; md_authn_signed := %s; md_cert_matches := false |}",
-				emit.Str(o.method), emit.Bool(signingKD), emit.Bool(as)),
+			Obs:   mobs,
+			Term:  term,
 		})
 	}
 }
